@@ -61,11 +61,23 @@ func newWrites() *writes {
 	return &writes{byMD5: map[string]*write{}, byID: map[int]*write{}, byCRC: map[string]*write{}}
 }
 
+func (ws *writes) byIDLocked(id int) *write {
+	ws.mu.Lock()
+	defer ws.mu.Unlock()
+	return ws.byID[id]
+}
+
 // ckMode asks for the stored checksum with a read
 var ckMode = []string{"X-Amz-Checksum-Mode", "ENABLED"}
 
 // mk creates a fresh write with an id-determined length and PRNG content.
-func (ws *writes) mk(big bool) *write {
+func (ws *writes) mk(big bool) *write { return ws.mkN(big, -1) }
+
+// mkLen creates a fresh write (own content, ETag, attributes) whose body has exactly n bytes: an overwrite that no
+// comparison of sizes can tell from the write it replaces.
+func (ws *writes) mkLen(n int) *write { return ws.mkN(false, n) }
+
+func (ws *writes) mkN(big bool, fixed int) *write {
 	ws.mu.Lock()
 	ws.next++
 	id := ws.next
@@ -73,6 +85,9 @@ func (ws *writes) mk(big bool) *write {
 	n := 1 + (id*7919)%3001
 	if big {
 		n = 100000 + (id*104729)%200000
+	}
+	if fixed >= 0 {
+		n = fixed
 	}
 	r := rand.New(rand.NewSource(int64(id)*2654435761 + 17))
 	b := make([]byte, n)
@@ -347,7 +362,8 @@ var pKinds = []pKind{
 	// the object that is read is EMPTY (no byte of it is ever sent; what is then overwritten under the read is the rest)
 	{"GET-empty", false}, {"HEAD-empty", false},
 }
-var oKinds = []string{"GET", "HEAD", "PUT", "DELETE", "LIST", "GETV"}
+// PUTL: an overwrite with a body of exactly the length of the object that P is reading (only under a held read)
+var oKinds = []string{"GET", "HEAD", "PUT", "DELETE", "LIST", "GETV", "PUTL"}
 
 type laneA struct {
 	c     *ev.Ctx
@@ -575,6 +591,9 @@ func (l *laneA) oneCase(id string, p pKind, j int, wantName string, o string, pl
 	if o == "GETV" && pr.stableVid == "" {
 		return
 	}
+	if o == "PUTL" && (pr.seedW == 0 || len(l.ws.byIDLocked(pr.seedW).body) < 16) {
+		return
+	}
 	pol, seen := gate.HoldNth(j)
 	l.ctl.SetPolicy(pol)
 	type pres struct {
@@ -631,8 +650,11 @@ func (l *laneA) oneCase(id string, p pKind, j int, wantName string, o string, pl
 		oResp = ocl.Do(&s3c.Req{Method: "GET", Path: s3c.ObjPath(b, key), Query: s3c.Q("versionId", pr.stableVid), Header: s3c.H{{ckMode[0], ckMode[1]}}, FreshConn: true})
 		oObs = l.ws.judgeRead(oResp, false)
 		oOp.In = opIn{Kind: "read", Name: "GETV"}
-	case "PUT":
+	case "PUT", "PUTL":
 		oW = l.ws.mk(false)
+		if o == "PUTL" {
+			oW = l.ws.mkLen(len(l.ws.byIDLocked(pr.seedW).body))
+		}
 		h2 := s3c.H{}
 		for i := 0; i+1 < len(oW.hdr()); i += 2 {
 			h2 = append(h2, [2]string{oW.hdr()[i], oW.hdr()[i+1]})
@@ -831,6 +853,9 @@ func runLaneA(c *ev.Ctx, cfg laneCfg) {
 			for _, o := range oKinds {
 				if (strings.HasPrefix(p.name, "GET") || strings.HasPrefix(p.name, "HEAD")) && (o == "GET" || o == "HEAD" || o == "LIST") {
 					continue // two reads cannot disagree
+				}
+				if o == "PUTL" && p.name != "GET" && p.name != "HEAD" {
+					continue
 				}
 				for place := 0; place < 2; place++ {
 					if !c.Thorough() && place == 1 && (o == "HEAD" || o == "LIST") {
